@@ -33,7 +33,10 @@ import (
 	"verifharness/vh"
 )
 
-var flagChild = flag.String("child", "", "internal: run scenarios lo:hi in this process")
+var (
+	flagChild  = flag.String("child", "", "internal: run scenarios lo:hi in this process")
+	flagRepeat = flag.Int("repeat", 1, "internal: repeat the child range up to this many times, until an oracle failure")
+)
 
 func main() {
 	f := vh.ParseFlags()
@@ -56,6 +59,7 @@ type childOut struct {
 	oracle   *os.File
 	counts   *os.File
 	seen     map[string]struct{}
+	nFails   int
 }
 
 func mustCreate(dir, name string) *os.File {
@@ -86,6 +90,7 @@ func oneLine(s string) string {
 
 func (co *childOut) oracleLine(key, caseLine, detail string) {
 	co.mu.Lock()
+	co.nFails++
 	fmt.Fprintf(co.oracle, "%s\t%s\t%s\n", oneLine(key), strings.ReplaceAll(caseLine, "\t", " "), oneLine(detail))
 	co.mu.Unlock()
 }
@@ -147,6 +152,16 @@ func childMain(f *vh.Flags, rng string) {
 		}
 	}
 	baseGoroutines = runtime.NumGoroutine() + 1 // + the scenario goroutine
+	for rep := 0; rep < *flagRepeat; rep++ {
+		runChildRange(f, co, tier, lo, hi)
+		if co.nFails > 0 {
+			break
+		}
+	}
+	os.Exit(0)
+}
+
+func runChildRange(f *vh.Flags, co *childOut, tier tierCfg, lo, hi int) {
 	for idx := lo; idx < hi; idx++ {
 		fmt.Fprintf(co.progress, "BEGIN %d\n", idx)
 		done := make(chan *scenResult, 1)
@@ -173,7 +188,6 @@ func childMain(f *vh.Flags, rng string) {
 			os.Exit(3)
 		}
 	}
-	os.Exit(0)
 }
 
 // ---------------------------------------------------------------------------
@@ -275,11 +289,15 @@ func (p *parent) merge(dir string) (nOracle int) {
 
 // runChild runs scenarios [lo,hi) in one child; returns the next index to run.
 func (p *parent) runChild(seed uint64, lo, hi int) (next int, nOracle int) {
+	return p.runChildN(seed, lo, hi, 1)
+}
+
+func (p *parent) runChildN(seed uint64, lo, hi, repeat int) (next int, nOracle int) {
 	k := atomic.AddInt32(&p.childSeq, 1)
 	dir := filepath.Join(p.f.Out, fmt.Sprintf("child-%d", k))
 	os.RemoveAll(dir)
 	cmd := exec.Command(os.Args[0], "-seed", strconv.FormatUint(seed, 10), "-tier", p.f.Tier,
-		"-out", dir, "-child", fmt.Sprintf("%d:%d", lo, hi))
+		"-out", dir, "-child", fmt.Sprintf("%d:%d", lo, hi), "-repeat", strconv.Itoa(repeat))
 	var stderr bytes.Buffer
 	cmd.Stderr = &stderr
 	cmd.Stdout = nil
@@ -447,55 +465,14 @@ func (p *parent) replay(line string) {
 		p.o.Oracle("harness", line, "malformed replay line")
 		return
 	}
-	attempts := 0
-	for attempts < 200 {
-		attempts++
-		// merge only a failing attempt (or the last one)
-		_, nOracle := p.runChildReplay(seed, idx, attempts == 200)
-		if nOracle > 0 {
-			break
-		}
+	// one child repeats the scenario in-process until an oracle failure shows up
+	// (schedules are nondeterministic); a crashed/hung child ends the replay too.
+	_, nOracle := p.runChildN(seed, idx, idx+1, 200)
+	p.o.Stats["replay_reproduced"] = 0
+	if nOracle > 0 {
+		p.o.Stats["replay_reproduced"] = 1
 	}
-	p.o.Stats["replay_attempts"] = attempts
-	p.o.Stats["scenarios"] = attempts
+	p.o.Stats["replay_attempts"] = p.ran
+	p.o.Stats["scenarios"] = p.ran
 	p.o.Stats["steps_distinct"] = len(p.seen)
-}
-
-// runChildReplay runs the single scenario idx; outputs are merged only when the
-// attempt produced an oracle failure or it is the last attempt.
-func (p *parent) runChildReplay(seed uint64, idx int, last bool) (int, int) {
-	if last {
-		return p.runChild(seed, idx, idx+1)
-	}
-	// dry attempt into a scratch parent whose Out is discarded unless it fails
-	scratch := filepath.Join(p.f.Out, "replay-scratch")
-	os.RemoveAll(scratch)
-	so := vh.NewOut(scratch)
-	sp := &parent{f: &vh.Flags{Seed: seed, N: 1, Out: scratch, Tier: p.f.Tier}, o: so, seen: map[string]struct{}{}}
-	_, nOracle := sp.runChild(seed, idx, idx+1)
-	so.Close()
-	if nOracle == 0 {
-		os.RemoveAll(scratch)
-		return idx + 1, 0
-	}
-	// copy the failing attempt's outputs into the real Out
-	readLines(filepath.Join(scratch, "cases.txt"), func(l string) {
-		if _, dup := p.seen[l]; !dup {
-			p.seen[l] = struct{}{}
-			p.o.Case(l, "ok", nontrivialLine(l))
-		}
-	})
-	readLines(filepath.Join(scratch, "oracle.txt"), func(l string) {
-		fs := strings.SplitN(l, "\t", 3)
-		if len(fs) == 3 {
-			p.o.Oracle(fs[0], fs[1], fs[2])
-		}
-	})
-	for k, v := range so.Stats {
-		if k != "oracle_fail" {
-			p.o.Stats[k] += v
-		}
-	}
-	os.RemoveAll(scratch)
-	return idx + 1, nOracle
 }
